@@ -72,6 +72,40 @@ pub proof fn lemma_all_ascii_is_ascii(s: &str)
     lemma_ascii_str(s);
 }
 
+/// a predicate that holds on every element of s[a..b) (stated on the sub-sequence) holds on s at a..b
+pub proof fn lemma_sub_all(s: Seq<char>, a: int, b: int, p: spec_fn(char) -> bool)
+    requires 0 <= a <= b <= s.len(), forall|j: int| 0 <= j < b - a ==> p(#[trigger] s.subrange(a, b)[j])
+    ensures forall|i: int| a <= i < b ==> p(#[trigger] s[i])
+{
+    assert forall|i: int| a <= i < b implies p(#[trigger] s[i]) by { assert(s.subrange(a, b)[i - a] == s[i]); }
+}
+pub proof fn lemma_all_sub(s: Seq<char>, a: int, b: int, p: spec_fn(char) -> bool)
+    requires 0 <= a <= b <= s.len(), forall|i: int| a <= i < b ==> p(#[trigger] s[i])
+    ensures forall|j: int| 0 <= j < b - a ==> p(#[trigger] s.subrange(a, b)[j])
+{
+}
+
+// broadcast forms (proved from the lemmas above) so that extracted code needs no per-site hints
+pub broadcast proof fn b_slice_ok_ascii(s: &str, a: int, b: int)
+    requires is_ascii_chars(s@), 0 <= a <= b <= s@.len()
+    ensures #[trigger] slice_ok(s, a, b)
+{
+    lemma_ascii_str(s);
+}
+pub broadcast proof fn b_slice_ascii(s: &str, a: int, b: int, r: &str)
+    requires #[trigger] is_slice(s, a, b, r), is_ascii_chars(s@), 0 <= a <= b <= s@.len()
+    ensures r@ == s@.subrange(a, b), is_ascii_chars(r@), r.spec_bytes().len() == b - a
+{
+    lemma_slice_ascii(s, a, b, r);
+}
+pub broadcast proof fn b_ascii_len(s: &str)
+    requires #[trigger] is_ascii_chars(s@)
+    ensures s.spec_bytes().len() == s@.len()
+{
+    lemma_ascii_str(s);
+}
+pub broadcast group group_lem { b_slice_ok_ascii, b_slice_ascii, b_ascii_len }
+
 // ------------------------------------------------------------------ digit strings
 pub proof fn lemma_digits_val_1(s: Seq<char>)
     requires s.len() == 1
@@ -104,6 +138,49 @@ pub proof fn lemma_digits_val_4(s: Seq<char>)
     assert(s.drop_last()[1] == s[1]);
     assert(s.drop_last()[2] == s[2]);
 }
+
+
+pub open spec fn d2(s: Seq<char>, i: int) -> int { (dval(s[i]) * 10 + dval(s[i + 1])) as int }
+pub open spec fn d4(s: Seq<char>, i: int) -> int { (dval(s[i]) * 1000 + dval(s[i + 1]) * 100 + dval(s[i + 2]) * 10 + dval(s[i + 3])) as int }
+
+pub proof fn lemma_all_digits_sub(s: Seq<char>, a: int, b: int)
+    requires all_digits(s), 0 <= a <= b <= s.len()
+    ensures all_digits(s.subrange(a, b))
+{
+    assert forall|i: int| 0 <= i < b - a implies ascii_digit(#[trigger] s.subrange(a, b)[i]) by { assert(s.subrange(a, b)[i] == s[a + i]); }
+}
+/// parsing a two-digit component of an all-digit string
+pub broadcast proof fn b_parse_sub2(s: Seq<char>, a: int, b: int, max: nat)
+    requires all_digits(s), 0 <= a, b == a + 2, b <= s.len(), max >= 99
+    ensures #[trigger] parse_unsigned_spec(s.subrange(a, b), max) == Some(d2(s, a) as nat), 0 <= d2(s, a) <= 99
+{
+    let t = s.subrange(a, b);
+    lemma_all_digits_sub(s, a, b);
+    lemma_digits_val_2(t);
+    assert(t[0] == s[a] && t[1] == s[a + 1]);
+    assert(ascii_digit(t[0]) && ascii_digit(t[1]));
+}
+pub broadcast proof fn b_parse_sub4(s: Seq<char>, a: int, b: int, max: nat)
+    requires all_digits(s), 0 <= a, b == a + 4, b <= s.len(), max >= 9999
+    ensures #[trigger] parse_unsigned_spec(s.subrange(a, b), max) == Some(d4(s, a) as nat), 0 <= d4(s, a) <= 9999
+{
+    let t = s.subrange(a, b);
+    lemma_all_digits_sub(s, a, b);
+    lemma_digits_val_4(t);
+    assert(t[0] == s[a] && t[1] == s[a + 1] && t[2] == s[a + 2] && t[3] == s[a + 3]);
+    assert(ascii_digit(t[0]) && ascii_digit(t[1]) && ascii_digit(t[2]) && ascii_digit(t[3]));
+}
+pub broadcast proof fn b_parse_i32_sub4(s: Seq<char>, a: int, b: int)
+    requires all_digits(s), 0 <= a, b == a + 4, b <= s.len()
+    ensures #[trigger] parse_i32_spec(s.subrange(a, b)) == Some(d4(s, a)), 0 <= d4(s, a) <= 9999
+{
+    let t = s.subrange(a, b);
+    lemma_all_digits_sub(s, a, b);
+    lemma_digits_val_4(t);
+    assert(t[0] == s[a] && t[1] == s[a + 1] && t[2] == s[a + 2] && t[3] == s[a + 3]);
+    assert(ascii_digit(t[0]) && ascii_digit(t[1]) && ascii_digit(t[2]) && ascii_digit(t[3]));
+}
+pub broadcast group group_digits { b_parse_sub2, b_parse_sub4, b_parse_i32_sub4 }
 
 } // verus!
 } // mod lem
